@@ -480,7 +480,7 @@ def handle (line : String) : String :=
     | some cc, some lens =>
       let en : LazyDec.Err → String := fun e => match e with
         | .unexpectedEOF => "UnexpectedEOF" | .size => "size" | .dataAfterEOS => "dataAfterEOS" | .noSpace => "noSpace"
-        | .distRange => "distRange" | .lenRange => "lenRange" | .panic => "panic" | .other w => "other(" ++ w.replace " " "_" ++ ")"
+        | .distRange => "distRange" | .lenRange => "lenRange" | .panic => "panic" | .src => "src" | .other w => "other(" ++ w.replace " " "_" ++ ")"
       match LazyDec.newReader cc (unhex h) with
       | .error e => "open:" ++ en e
       | .ok l =>
@@ -493,7 +493,7 @@ def handle (line : String) : String :=
     | some cc, some lens =>
       let en : LazyDec.Err → String := fun e => match e with
         | .unexpectedEOF => "UnexpectedEOF" | .size => "size" | .dataAfterEOS => "dataAfterEOS" | .noSpace => "noSpace"
-        | .distRange => "distRange" | .lenRange => "lenRange" | .panic => "panic" | .other w => "other(" ++ w.replace " " "_" ++ ")"
+        | .distRange => "distRange" | .lenRange => "lenRange" | .panic => "panic" | .src => "src" | .other w => "other(" ++ w.replace " " "_" ++ ")"
       let rs := seqCont LazyDec2.read (LazyDec2.newReader2 cc (unhex h)) lens 3
       " ".intercalate (rs.map (fun (o, st) => s!"{o.size}:" ++ (match st with | .ok => "ok" | .eof => "EOF" | .err e => en e))) ++
         " | " ++ hex (LazyDec.delivered rs)
@@ -502,7 +502,7 @@ def handle (line : String) : String :=
   | "xzlazy" :: cc :: sg :: h :: lens => match cc.toNat?, lens.mapM String.toNat? with
     | some cc, some lens =>
       let sn : LazyDec.RStat → String := fun st => match st with
-        | .ok => "ok" | .eof => "EOF" | .err .unexpectedEOF => "UnexpectedEOF" | .err .panic => "panic" | .err .noSpace => "noSpace" | .err _ => "other"
+        | .ok => "ok" | .eof => "EOF" | .err .unexpectedEOF => "UnexpectedEOF" | .err .panic => "panic" | .err .noSpace => "noSpace" | .err .src => "src" | .err _ => "other"
       match LazyXz.newReader cc (boolOf sg) (unhex h) with
       | .error st => "open:" ++ sn st
       | .ok x =>
@@ -540,6 +540,39 @@ def handle (line : String) : String :=
       let s : Src.S := { data := if h = "-" then ByteArray.empty else unhex h, frag := srcFrag fm sd, together := boolOf tg,
                          ends := if boolOf fl then .fail else .eof }
       " ".intercalate (srcOps s ops)
+    | _, _ => "bad-op"
+  -- lzlazyE / lz2lazyE / xzlazyE: as above with a SOURCE THAT FAILS where the given bytes end (error other than io.EOF);
+  -- the sequences stop at the first error
+  | "lzlazyE" :: cc :: h :: lens => match cc.toNat?, lens.mapM String.toNat? with
+    | some cc, some lens =>
+      let en : LazyDec.Err → String := fun e => match e with
+        | .unexpectedEOF => "UnexpectedEOF" | .size => "size" | .dataAfterEOS => "dataAfterEOS" | .noSpace => "noSpace"
+        | .distRange => "distRange" | .lenRange => "lenRange" | .panic => "panic" | .src => "src" | .other w => "other(" ++ w.replace " " "_" ++ ")"
+      match LazyDec.newReaderE true cc (unhex h) with
+      | .error e => "open:" ++ en e
+      | .ok l =>
+        let rs := seqCont LazyDec.read l lens 0
+        " ".intercalate (rs.map (fun (o, st) => s!"{o.size}:" ++ (match st with | .ok => "ok" | .eof => "EOF" | .err e => en e))) ++
+          " | " ++ hex (LazyDec.delivered rs)
+    | _, _ => "bad-op"
+  | "lz2lazyE" :: cc :: h :: lens => match cc.toNat?, lens.mapM String.toNat? with
+    | some cc, some lens =>
+      let en : LazyDec.Err → String := fun e => match e with
+        | .unexpectedEOF => "UnexpectedEOF" | .size => "size" | .dataAfterEOS => "dataAfterEOS" | .noSpace => "noSpace"
+        | .distRange => "distRange" | .lenRange => "lenRange" | .panic => "panic" | .src => "src" | .other w => "other(" ++ w.replace " " "_" ++ ")"
+      let rs := seqCont LazyDec2.read (LazyDec2.newReader2E true cc (unhex h)) lens 0
+      " ".intercalate (rs.map (fun (o, st) => s!"{o.size}:" ++ (match st with | .ok => "ok" | .eof => "EOF" | .err e => en e))) ++
+        " | " ++ hex (LazyDec.delivered rs)
+    | _, _ => "bad-op"
+  | "xzlazyE" :: cc :: sg :: h :: lens => match cc.toNat?, lens.mapM String.toNat? with
+    | some cc, some lens =>
+      let sn : LazyDec.RStat → String := fun st => match st with
+        | .ok => "ok" | .eof => "EOF" | .err .unexpectedEOF => "UnexpectedEOF" | .err .panic => "panic" | .err .noSpace => "noSpace" | .err .src => "src" | .err _ => "other"
+      match LazyXz.newReaderE true cc (boolOf sg) (unhex h) with
+      | .error st => "open:" ++ sn st
+      | .ok x =>
+        let rs := seqCont LazyXz.read x lens 0
+        " ".intercalate (rs.map (fun (o, st) => s!"{o.size}:" ++ sn st)) ++ " | " ++ hex (LazyDec.delivered rs)
     | _, _ => "bad-op"
   -- btcands <dictCap> <hex(history)> <hex(look ≤ 273)> → special:a:b of the Lean binary tree model
   | ["btcands", dc, h, l] => match dc.toNat? with
